@@ -193,6 +193,9 @@ class WorldC11(World):
                              for _ in range(rng.randint(1, 2))]
             if kind == 'Nasa' and r() < 0.2:
                 d['cat_site'] = self.gen_desc(rng, 'CatSite', depth + 1)
+            if kind == 'Nasa':
+                # a fitted NASA polynomial has whatever T_mid the fit's grid search found
+                d['T_mid'] = rng.choice([1000.0, 1000.0, 716.3265306122448, 1234.567890123, 998.7654321])
             return d
         if kind == 'Reference':
             sm = self.gen_desc(rng, 'StatMech', depth + 2)
@@ -350,7 +353,7 @@ class WorldC11(World):
             kw = dict(name=d['name'], phase=d['phase'], elements=copy.deepcopy(d['elements']), notes=d['notes'],
                       smiles=d['smiles'], misc_models=[self.build(m) for m in d['misc']] if d.get('misc') else None)
             if k == 'Nasa':
-                return nasa.Nasa(T_low=200.0, T_mid=1000.0, T_high=3500.0, a_low=[v * s for v in H2O_LOW],
+                return nasa.Nasa(T_low=200.0, T_mid=d.get('T_mid', 1000.0), T_high=3500.0, a_low=[v * s for v in H2O_LOW],
                                  a_high=[v * s for v in H2O_HIGH], n_sites=d['n_sites'],
                                  cat_site=self.build(d['cat_site']) if d.get('cat_site') else None, **kw)
             if k == 'Nasa9':
@@ -424,6 +427,9 @@ class WorldC11(World):
             if callable(fn) and type(obj).__name__ in ('Nasa', 'Nasa9', 'Shomate'):
                 try:
                     out[nm + '@1000K'] = _plain(fn(T=1000.0))       # a segment boundary of the generated species
+                    tm = getattr(obj, 'T_mid', None)
+                    if isinstance(tm, float):
+                        out[nm + '@T_mid'] = _plain(fn(T=tm))
                 except Exception as e:
                     out[nm + '@1000K'] = ('EXC', type(e).__name__)
         for nm in sorted(n for n in dir(type(obj)) if n.startswith('get_')):
@@ -452,6 +458,10 @@ class WorldC11(World):
                 continue
             if any(p.kind == p.VAR_KEYWORD for p in sig.parameters.values()):
                 kw.setdefault('T', POOL['T'])
+                if type(obj).__name__ in ('StatMech', 'Nasa', 'Nasa9', 'Shomate', 'Reaction', 'ChemkinReaction',
+                                          'SurfaceReaction') and nm.split('_')[-1] in ('HoRT', 'GoRT', 'SoR', 'H', 'G', 'S'):
+                    kw.setdefault('x', POOL['x'])       # a coverage, for whatever coverage models are attached
+                    kw.setdefault('P', POOL['P'])
             try:
                 v = fn(**kw)
                 out[nm] = _plain(v)
@@ -464,6 +474,9 @@ class WorldC11(World):
                     ident[a] = _plain(getattr(obj, a))
                 except Exception as e:
                     ident[a] = ('EXC', type(e).__name__)
+        mm = getattr(obj, 'misc_models', None)
+        if isinstance(mm, (list, tuple)):
+            ident['attached-models'] = [type(x).__name__ for x in mm]
         nasas = getattr(obj, 'nasas', None)
         if isinstance(nasas, (list, tuple)):
             try:
